@@ -91,7 +91,7 @@ CHECKS.update({
 CHECKS.update({
  'C16': dict(
    text="Lean theorems over Q for all vectors: rss/mse/smape symmetric; rss, mse, rmspe^2, rmsle^2 (any log), rpd, smape >= 0 and = 0 at y = y_hat; smape_le_two; r2_le_one, r2_self; "
-        "adjust_def/adjust_le; fit_through_ends, lineQ_head/getLast, fit_vertical; corrSq_nonneg, corrSq_le_one (list Cauchy-Schwarz). Tie: the exact-Q value of every metric is compared "
+        "adjust_def/adjust_le; fit_through_ends, lineQ_head/getLast, fit_vertical; corrSq_nonneg, corrSq_le_one (list Cauchy-Schwarz); Props/Invariance: rssQ/mseQ/r2Q/corrSqQ under affine maps, and the eps-guarded ratio metrics are NOT scale invariant (scaling by s = guard eps/s). Tie: the exact-Q value of every metric is compared "
         "with metrics.* / linear_fit.* on vector pairs y != y_hat (non-negative for all metrics; signed vectors for residuals, RMSE, SMAPE, R2) under a cancellation-scaled 1e-9 tolerance (squares for rooted metrics, np.log values supplied), plus bit-wise predicates "
         "(symmetry, zeros, bounds, wrappers == metrics(y, m*x+b), best-fit R2 == squared Pearson correlation).",
    note=TB + " IEEE rounding is not modelled: 'to within floating-point rounding' is the tolerance above on dyadic inputs. log is a parameter of the RMSLE theorems.",
